@@ -285,7 +285,7 @@ def run(tier, seed, only=None):
     }
 """ % ", ".join("%d => %s" % (i, k) for i, k in enumerate(kinds))
         tcases, tfinish = traversal(rep, s, mir_text, tier, seed, only, check, nq)
-        kreplay = block_kinds(rep, mir_text, only, check)
+        kreplay = block_kinds(rep, mir_text, only, check) + mutable_read(rep, mir_text, s, only, check)
         del mir_text
         nr = NativeRun(s, "erg_compiler", "crates/erg_compiler/effectcheck.rs", helpers=helpers + NERR_HELPER)
         for cid, expr_ in tcases:
@@ -587,7 +587,8 @@ def traversal(rep, s, fns_text, tier, seed, only, check, nq):
         return [], lambda res: None
     used = set()
     pending = []
-    for key, sp, tmpl, tmpl_proc in T.shapes(tier):
+    for shp in T.shapes(tier):
+        key, sp, tmpl, tmpl_proc = shp[:4]
         if key not in TRAVERSAL_SHAPES:
             continue
         okey = "visits/" + key
@@ -762,6 +763,109 @@ def block_kinds(rep, fns_text, only, check):
             return [(ob, prog)]
         else:
             ob.update(verdict=HELD, reason="on all %d paths the kind pushed for a definition is the one the table of the property gives for its (procedural name, subroutine, constant) flags" % npaths)
+    except Unsupported as e:
+        ob.update(verdict=INCONCLUSIVE, reason="unsupported-construct: " + str(e)[:200])
+    return []
+
+
+
+# ---------------------------------------------------------------------------------------------
+# stage 2b: reading a mutable variable defined outside the function (the Accessor arm of check_expr)
+
+def mutable_read(rep, fns_text, s, only, check):
+    """returns [(obligation, program)] to replay"""
+    key = "visits/accessor/mutable-read"
+    if only and not any(o in key for o in only.split(",")):
+        return []
+    hsrc = s.read("crates/erg_compiler/hir.rs")
+    structs = {}
+    for mm in re.finditer(r"pub struct (\w+)\s*\{(.*?)\n\}", hsrc, re.S):
+        structs[mm.group(1)] = re.findall(r"^\s*(?:pub(?:\([^)]*\))?\s+)?(\w+)\s*:", mm.group(2), re.M)
+    for mm in re.finditer(r"pub struct (\w+)\(([^;{]*)\);", hsrc):
+        structs[mm.group(1)] = [str(i) for i in range(len([x for x in mm.group(2).split(",") if x.strip()]))]
+    vidx = {e: M.rust_enum_variants(hsrc, e) for e in T.ENUMS}
+    vidx["Option"] = ["None", "Some"]
+    fns = M.parse_mir(fns_text, want=["effectcheck::"])
+    mains = [f for f in fns.values() if f.short == "check_expr" and f.name.startswith("effectcheck::")]
+    ob = Obligation(dict(engine="mirsem (MIR -> z3 %s)" % z3.get_version_string(), solver="z3", functions=["SideEffectChecker::check_expr"],
+                         shape="a variable access (Expr::Accessor(Ident))",
+                         symbolic=["effects allowed here", "the variable is a parameter", "its type is mutable", "it is not reached through a reference", "its defining namespace differs from the current one"],
+                         bounds={}), key=key)
+    rep.add(ob)
+    if len(mains) != 1:
+        ob.update(verdict=BROKEN, reason="check_expr not found uniquely (%d)" % len(mains))
+        return []
+    B = {n: z3.Bool("acc_" + n) for n in ("allowed", "param", "mut", "notref", "differs")}
+    NS, FP = const("the_def_namespace"), const("the_full_path")
+    seen = {}
+
+    def mk(n):
+        return lambda flow, P, callee, args: flow.mkbool(P, B[n])
+
+    def def_ns(flow, P, callee, args):
+        return flow.new_place(P, "pns", NS)
+
+    def full_path(flow, P, callee, args):
+        return FP
+
+    def ne(flow, P, callee, args):
+        a, b = flow.deref_all(P, args[0]), flow.deref_all(P, args[1])
+        P.calls.append(("NSCMP", [a, b], None))
+        return flow.mkbool(P, B["differs"])
+
+    def report(flow, P, callee, args):
+        P.calls.append(("REPORT", [], None))
+        return const("err")
+
+    def noop(flow, P, callee, args):
+        return const("unit")
+    models_ = [(r"::in_context_effects_allowed$", mk("allowed")), (r"VarInfo::is_parameter$", mk("param")), (r"Type::is_mut_type$", mk("mut")),
+               (r"^Option::<&hir::Expr>::is_none_or::", mk("notref")), (r"VarInfo::def_namespace$", def_ns), (r"SideEffectChecker::<'_>::full_path$|SideEffectChecker::full_path$", full_path),
+               (r"erg_common::Str as PartialEq<.*>>::ne$|erg_common::Str as PartialEq>::ne$", ne), (r"touch_mut_error$", report),
+               (r"as (erg_common::traits::)?Stream<.*>>::push$|CompileErrors::push$", noop)]
+    try:
+        W = {"used": set(), "main": mains[0], "depth": 0}
+        flow = S.SemFlow(fns, mains[0], models_ + T.models(W), vidx)
+        P0 = S.Path()
+        P0.pc = list(S.BASE_AXIOMS)
+        tree = T.Tree(flow, structs, P0)
+        tree.where, tree.obj_keys = {}, {}
+        W["tree"] = tree
+        sp = ("expr", "Accessor", ("enum", "Accessor", "Ident", ("opaque", "id")))
+        P0.locals["p_X"] = tree.build(sp, "p_X", [])
+        pre = dict(P0.locals)
+        pre.update({"_1": const("self"), "_2": Ref("p_X")})
+        outs = flow.run("bb0", stop_at=(), pre=pre, pc=P0.pc)
+        want = z3.And(z3.Not(B["allowed"]), z3.Not(B["param"]), B["mut"], B["notref"], B["differs"])
+        npaths, wrong_decision, wrong_cmp = 0, None, None
+        for Q, end in outs:
+            if end != "return" or check(Q.pc)[0] != "sat":
+                continue
+            npaths += 1
+            rep_ = any(c[0] == "REPORT" for c in Q.calls)
+            if check(Q.pc + [want != z3.BoolVal(rep_)])[0] == "sat":
+                wrong_decision = rep_
+            for c in Q.calls:
+                if c[0] == "NSCMP":
+                    a, b = c[1]
+                    if not (z3.is_expr(a) and a.eq(NS) and z3.is_expr(b) and b.eq(FP)):
+                        wrong_cmp = (str(a)[:60], str(b)[:60])
+        ob["queries"] = flow.queries + 2 * npaths
+        ob["detail"] = {"paths": npaths}
+        prog = T.PRELUDE + "i = !0\nk = (x: Int) -> i + x\nprint! k 1\n"
+        if npaths == 0:
+            ob.update(verdict=BROKEN, reason="no feasible path (vacuous encoding)")
+        elif wrong_cmp or wrong_decision is not None:
+            why = []
+            if wrong_cmp:
+                why.append("the variable's defining namespace is not compared with the checker's current path itself (%s vs %s)" % wrong_cmp)
+            if wrong_decision is not None:
+                why.append("an access is %s although the five conditions say otherwise" % ("reported" if wrong_decision else "not reported"))
+            ob.update(verdict=VIOLATED, reason="reading a mutable variable: " + "; ".join(why))
+            return [(ob, prog)]
+        else:
+            ob.update(verdict=HELD, reason="on all %d paths an access is reported exactly when effects are forbidden here, the variable is no parameter, has a mutable type, is not reached through a "
+                                           "reference and was defined in another namespace - and that namespace is compared with full_path() itself" % npaths)
     except Unsupported as e:
         ob.update(verdict=INCONCLUSIVE, reason="unsupported-construct: " + str(e)[:200])
     return []
